@@ -1,5 +1,6 @@
 """One-off helper (not used at check time): groups the violation classes of a C17 dump (C17_DUMP=... ./check C17 --tier thorough)
-by root cause and prints / writes known_findings.d/C17.json.  The grouping rules are in RULES; `fixed` = keys that
+by root cause, prints the grouping and, with a third argument, writes that file in known-findings format
+(usage: python3 py/c17_kf_gen.py <dump.jsonl> <fixed_keys.json> [known_findings.d/C17.json]).  The grouping rules are in RULES; `fixed` = keys that
 disappear with notes/proposed-fixes/C17-transpile-string-literals-and-prelude-order.patch applied (measured in a scratch worktree)."""
 import json
 import re
@@ -71,7 +72,94 @@ def main():
             if ":str:" in k:
                 continue
             print("   ", k, "|", seen[k]["detail"][:110].replace("\n", " "))
-    json.dump({g: ks for g, ks in groups.items()}, open("/tmp/c17w/groups.json", "w"), indent=1)
+    if len(sys.argv) > 3:
+        write(groups, sys.argv[3])
+
+
+def write(groups, out_path):
+    """descriptions per root cause + the hand corrections of the automatic grouping; writes the known-findings file"""
+    def mv(key, frm, to):
+        groups[frm].remove(key); groups.setdefault(to, []).append(key)
+    mv("behaviour-differs:construct:patch-method", "var-args-and-star-expansion-dropped", "patch-method-call")
+    mv("behaviour-differs:corpus:tests/should_ok/iterator.er", "prelude-order-range-first", "helper-function-cannot-see-locals")
+    groups["helper-function-cannot-see-locals"].append("behaviour-differs:construct:lit-str-in-match-arm")
+    mv("invalid-python:corpus:tests/should_ok/inherit.er", "other", "attribute-definition-wrapped-in-constructor")
+    mv("invalid-python:corpus:tests/should_ok/mut_dict.er", "other", "for-as-last-expression")
+    PATCH = "notes/proposed-fixes/C17-transpile-string-literals-and-prelude-order.patch"
+    META = {
+     "string-literal-pasted-from-token": dict(
+       witness='print! "a\\"b"  ->  (print)(Str("a"b"),)  SyntaxError;   print! "\\\\a"  ->  Str("\\a")  prints BEL instead of \\a;   print! "a\\\\"  ->  Str("a\\")  unterminated string',
+       what="PyScriptGenerator::transpile_lit pastes lit.token.content; the lexer has already resolved the escapes in it, so a string whose value contains a double quote or a backslash is written raw between the quotes: "
+            "invalid Python (a quote or a trailing backslash), or a different string (backslash followed by a letter, quote, apostrophe or newline escape). Pieces of interpolated and multi-line strings keep their stray quotes. "
+            "Keys: every symbol set over {a, dq, sq, bs, lb, rb, e2, nl} that contains dq or bs and was seen failing (strings of length <= 3, both templates), the literal constructs, tests/should_ok/interpolation.er. "
+            "All of them agree with the bytecode once the proposed fix (emit the literal from its value) is applied.", fix=PATCH),
+     "prelude-order-range-first": dict(
+       witness="for! 0..<3, i =>\\n    print! i   ->  script line 81: class IntMut(MutType): NameError: name 'MutType' is not defined",
+       what="when a range operator is the first construct that needs the runtime library, load_range_ops_if_not pastes _erg_int.py before _erg_control.py/_erg_type.py (then__ and MutType undefined), later loaders paste _erg_result/_erg_range/_erg_type a second time and skip _erg_bool; every such script dies while defining the prelude. "
+            "Fixed by the proposed patch (each runtime file once, in dependency order).", fix=PATCH),
+     "int-pow-nat": dict(
+       witness="print!((-1) ** 7): bytecode raises ValueError (Nat can't be negative), the script prints -1",
+       what="the bytecode side wraps Int ** Nat in Nat (C01 known finding exception-differs:Int**Nat); the transpiled script computes the Python value. Same root cause as the C01 finding, not a transpiler defect."),
+     "bytecode-crashes-the-interpreter": dict(
+       witness="print! 1 << 2, 8 >> 1: `erg f.er` prints FeatureError(<<) is not implemented yet, still writes bytecode and python3.11 dies with SIGSEGV; the script prints `4 4`.  f(1)(2)(3) over three nested closures: SIGSEGV, script prints 6",
+       what="the compiled bytecode of these two constructs crashes CPython 3.11 (code generator defects, C13/C14 territory: nested closure cells; shift operators emit no valid opcode), the script runs. Listed because the two sides differ; nothing in transpile.rs is involved."),
+     "keyword-arguments-mangled": dict(
+       witness="f x: Nat, y: Nat := 10 = x + y; print! f(1, y := 2)  ->  f_L1(Nat(1),y__=Nat(2),): TypeError: f_L1() got an unexpected keyword argument 'y__'",
+       what="transpile_args writes a keyword argument of a non-Python callee as `<name>__=`, transpile_params names the parameter `<name>_L<line>_C<col>`: every keyword call of an Erg-defined function fails. No small repair: the parameter naming scheme has to change."),
+     "var-args-and-star-expansion-dropped": dict(
+       witness="f(*xs: Nat) = len xs; print! f(1, 2, 3)  ->  def f_L1(): ...: TypeError: f_L1() takes 0 positional arguments but 3 were given;   f(*l)  ->  (f_L1)()",
+       what="transpile_params ignores params.var_params / kw_var_params and transpile_args ignores args.var_args: variadic definitions lose the parameter, star-expanded calls lose the argument."),
+     "class-private-fields": dict(
+       witness="C = Class {x = Nat}; c = C.new {x = 3}  ->  __init__: self.x__ = param__.x__  with param__ = NamedTuple__('Record', ['x_L4_C11',])(Nat(3),): AttributeError: 'Record' object has no attribute 'x__'",
+       what="transpile_classdef reads private fields of the constructor record as `<field>__`, transpile_record names them `<field>_L<line>_C<col>`: every class with a private field fails in __init__."),
+     "class-new-missing": dict(
+       witness="examples/impl.er, examples/structural.er: AttributeError: type object 'Point_L1' has no attribute 'new'",
+       what="`new` is only generated when classdef.need_to_gen_new is set; classes whose constructor comes from elsewhere (structural / trait-implementing classes) get none."),
+     "helper-function-cannot-see-locals": dict(
+       witness="f x: Nat = match x: ...  ->  def match_tmp_func_1__(): match Nat(x_L1_C2): ... is put at module level: NameError: name 'x_L1_C2' is not defined",
+       what="transpile_match and the multi-statement transpile_if move the construct into a module-level helper function that refers to the enclosing function's locals (the source says: FIXME: this trick only works in the global namespace); lambdas hoisted to module level have the same problem (examples/dict.er, tests/should_ok/use_itertools.er, iterator.er). "
+            "behaviour-differs:construct:lit-str-in-match-arm is listed in advance: today that program fails earlier (string escaping), with the proposed fix applied it reaches this defect."),
+     "for-as-last-expression": dict(
+       witness="p!() =\\n    for! [1, 2], i =>\\n        print! i   ->  `    return for i_L2_C16 in List([Nat(1),Nat(2),]):`  SyntaxError",
+       what="transpile_block prefixes the last chunk with `return ` even when it is a for/while statement."),
+     "return-method": dict(
+       witness="tests/should_ok/return.er: `(fib_L1).return(Nat(n_L1_C4),) if ... else None`  SyntaxError (return is a keyword)",
+       what="the `f.return x` early-return form is transpiled as a method call named return."),
+     "attribute-definition-wrapped-in-constructor": dict(
+       witness="tests/should_ok/class_attr.er: `Nat((C_L2).aaa_L4_C4) = Nat(1)`  SyntaxError: cannot assign to function call",
+       what="transpile_attrdef transpiles its target through transpile_acc, which wraps attributes of builtin value types in their runtime constructor."),
+     "operator-token-pasted": dict(
+       witness="print! True && False  ->  (Bool(True) && Bool(False));   x is! x  ->  (Nat(x_L1) is! Nat(x_L1)): SyntaxError",
+       what="the default arm of transpile_binop pastes the Erg operator token; `&&`, `||`, `is!`, `isnot!` are not Python operators."),
+     "declared-then-defined-name": dict(
+       witness="x: Int\\nx = 1\\nprint! x  ->  Int(x_L1)\\nx_L2 = Nat(1)\\n(print)(Nat(x_L2),): NameError: name 'x_L1' is not defined",
+       what="a bare type declaration `x: Int` is a TypeAsc chunk; transpile_expr evaluates its expression, i.e. emits `Int(x_L1)` as a statement before x exists (and with the declaration's line in the mangled name)."),
+     "patch-method-call": dict(
+       witness="P = Patch Nat; P.\\n    double self = self * 2; print! 2.double()  ->  (print)(__P_double(Nat(2), ()),): TypeError: __P_double() takes 1 positional argument but 2 were given",
+       what="transpile_simple_call formats a debound patch method call as `name(obj, <args with their parentheses>)`: the parenthesised argument list becomes a second positional argument (an empty tuple here)."),
+     "runtime-name-missing-from-script": dict(
+       witness="examples/iterator.er: NameError: name 'iterable_filter' is not defined; trait.er: 'Trait'; comment.er: 'Del'; sym_op.er: 'add'; patch.er: '__Invert___zero__'",
+       what="names the bytecode gets from _erg_std_prelude / _erg_iterable / _erg_traits / operator (iterable_*, Trait, Del, add, patch constants) are never defined in the inlined prelude."),
+     "panic-class-without-record-fields": dict(
+       witness="C = Class()\\nC.\\n    hello self = \"hi\"  ->  thread panicked at transpile.rs:1206: index out of bounds: the len is 0 but the index is 0",
+       what="transpile_classdef indexes constructor.non_default_params()[0] unconditionally: a class without a field record (Class(), trait implementations, unit tests) crashes the transpiler with a panic that is not todo!/unimplemented!. 11 corpus files and 3 constructs."),
+     "panic-unreachable-param-pattern": dict(
+       witness="examples/mut.er, tests/should_ok/infer_trait.er: panicked at transpile.rs:1085: internal error: entered unreachable code",
+       what="transpile_params marks every parameter pattern other than a name or `_` unreachable!(); `ref!`/`ref` parameters reach it."),
+     "other": dict(
+       witness="List(Int)  ->  bytecode prints _erg_list.List[_erg_int.Int], the script __main__.List[__main__.Int];  tests/should_ok/map.er: (List).__call__[...];  examples/with.er: multi-statement lambda body pasted inline;  dyn_type_check.er: AssertionError;  assert_cast.er: quote in a string, then a second syntax error",
+       what="remaining corpus programs / one construct, one cause each: the inlined prelude makes the runtime classes members of __main__ (their repr differs); a poly-type call is written with brackets on __call__; with! bodies of several statements are emitted inside a lambda; `contains_operator` on list-of-types differs; assert_cast.er has a quoted string (fixed by the proposed patch) followed by another invalid construct."),
+    }
+    out = {"findings": [], "fixed": []}
+    order = ["string-literal-pasted-from-token", "prelude-order-range-first"] + [g for g in sorted(groups) if g not in ("string-literal-pasted-from-token", "prelude-order-range-first")]
+    for g in order:
+        m = META[g]
+        f = {"property": "C17", "name": g, "keys": sorted(set(groups[g])), "witness": m["witness"], "what": m["what"]}
+        if "fix" in m:
+            f["proposed_fix"] = m["fix"]
+        out["findings"].append(f)
+    json.dump(out, open(out_path, "w"), indent=1, ensure_ascii=False)
+    print(sum(len(f["keys"]) for f in out["findings"]), "keys in", len(out["findings"]), "findings")
 
 
 if __name__ == "__main__":
